@@ -21,15 +21,27 @@
      * a tree rooted in "<start>" is never replaced: mk_parser overwrites the start rule with
        <start> ::= <start> and the parser rejects every string (C20_start_rooted_syntaxerr,
        C20_crop_start_rooted_syntaxerr) — observed on the implementation, see design_notes/C20.md.
+     * (proof extension 2) "a replacement exists iff the cropped / padded / converted string is in
+       L g nt" (C20_crop_assign_iff, C20_just_assign_iff, C20_octal_to_decimal_assign_iff,
+       C20_decimal_to_octal_assign_iff) and the two-outcome theorems C20_mk_parse_total,
+       C20_crop_earley_total: the model's out-of-fuel outcome is EXCLUDED (C20_mk_parse_no_outoffuel)
+       by C10's termination theorem for the tree enumeration (C10_parse_complete), applied to the
+       grammar mk_parser hands to the parser.  New side condition: the boolean
+       `acyclicb (cgram (mk_grammar g nt) START)` (no cyclic unit/nullable derivation in the
+       specialised grammar; C10_acyclicb_spec) + fuel >= fuel_bound as before.  The guard is a real
+       restriction of the MODEL (C20_acyclic_guard_needed: <a> ::= <a> | "1" runs out of fuel; the
+       model enumerates the whole forest, Python's parser is lazy);
+     * C20_request_guard_total: the boolean guards grammar_guard / request_guard (Logic/SemPredsGuard.v),
+       which harness/c20.py evaluates per end-to-end case, imply: the call's parser request (nt, s) is
+       answered by the replacement tree (s in L g nt) or SyntaxError (s not in L g nt) - nothing else.
    STILL PARTIAL:
-     * "a replacement exists iff the padded / cropped string is in L g nt"
-       (C20_crop_assign_iff_partial, C20_just_assign_iff_partial): the direction <- holds up to the
-       model's out-of-fuel outcome of the TREE ENUMERATION, inherited from
-       C10_parse_member_outcomes_partial (termination of `trees` within a computable fuel is not proved);
+     * grammars whose specialisation has a cyclic unit/nullable derivation: only the older
+       C20_crop_assign_iff_partial / C20_just_assign_iff_partial (premise `... <> Raise OutOfFuel`) and the
+       three-outcome theorems apply;
      * octal: the guards K_nonoctal / K_octal_both (recorded defects) and just: K_neg_width as before.
    The abstract-parser versions (C20_*_replacement, premise = soundness of an arbitrary `parse`) are kept. *)
-From ISLA Require Import SemPreds SemPredsFacts SemPredsParser SemPredsCompose.
-From ISLA Require Import Earley EarleyFuel EarleyPrune.
+From ISLA Require Import SemPreds SemPredsFacts SemPredsParser SemPredsCompose SemPredsGuard SemPredsComposeMore.
+From ISLA Require Import Earley EarleyFuel EarleyPrune EarleyAcyclic.
 From Coq Require Import ZArith List.
 Import ListNotations.
 
@@ -332,10 +344,12 @@ Proof. exact decimal_to_octal_syntaxerr_iff. Qed.
 Print Assumptions C20_decimal_to_octal_syntaxerr_iff.
 
 (* ---- "a replacement exists iff the cropped / padded string is in the language of the nonterminal"
-   FULL STATEMENT: the equivalence below without the premise `... <> Raise OutOfFuel`.
-   PARTIAL: -> holds unconditionally (C20_*_replacement_earley); <- holds unless the model's tree
-   enumeration runs out of fuel (C10_parse_member_outcomes_partial: its termination within a
-   computable fuel is not proved).  SyntaxError is excluded by C20_*_syntaxerr_iff. ---- *)
+   FULL STATEMENT: the equivalence below without the premise `... <> Raise OutOfFuel`: proved as
+   C20_crop_assign_iff / C20_just_assign_iff (PROOF EXTENSION 2 at the end of this file) under the guard
+   acyclicb of the specialised grammar.
+   PARTIAL (kept for grammars outside that guard): -> holds unconditionally (C20_*_replacement_earley);
+   <- holds unless the model's tree enumeration runs out of fuel (C10_parse_member_outcomes_partial).
+   SyntaxError is excluded by C20_*_syntaxerr_iff. ---- *)
 Theorem C20_crop_assign_iff_partial : forall g fxA fxB fuel,
   canonical_form g = true -> NoDup (map fst g) -> occurs_rhs g START = false ->
   forall fx t wt n,
@@ -411,3 +425,162 @@ Example C20_compose_hypotheses_satisfiable :
   L ex_gs START [49]%N.
 Proof. exact ex_compose_hyps. Qed.
 Print Assumptions C20_compose_hypotheses_satisfiable.
+
+(* ==================================================================================== *)
+(* PROOF EXTENSION 2: the out-of-fuel outcome is excluded (C10_parse_complete)            *)
+(*   guard: acyclicb (cgram (mk_grammar g nt) START) = true  -- the grammar that mk_parser *)
+(*   hands to EarleyParser has no cyclic unit/nullable derivation A =>+ A                  *)
+(*   (C10_acyclicb_spec), and fuel >= fuel_bound (computable; Python has no fuel)          *)
+(* ==================================================================================== *)
+
+Theorem C20_mk_parse_no_outoffuel : forall g fxA fxB fuel nt,
+  canonical_form g = true -> NoDup (map fst g) -> occurs_rhs g START = false ->
+  defined g nt = true -> nt <> START ->
+  acyclicb (cgram (mk_grammar g nt) START) = true ->
+  forall w, fuel_bound (cgram (mk_grammar g nt) START) (length w) <= fuel ->
+  mk_parse fxA fxB fuel g nt w <> Raise OutOfFuel.
+Proof. exact mk_parse_no_outoffuel. Qed.
+Print Assumptions C20_mk_parse_no_outoffuel.
+
+(* exactly two outcomes of the parser call: a member of L g nt gets its tree, a non-member SyntaxError *)
+Theorem C20_mk_parse_total : forall g fxA fxB fuel nt,
+  canonical_form g = true -> NoDup (map fst g) -> occurs_rhs g START = false ->
+  defined g nt = true -> nt <> START ->
+  acyclicb (cgram (mk_grammar g nt) START) = true ->
+  forall w, fuel_bound (cgram (mk_grammar g nt) START) (length w) <= fuel ->
+  (exists r, mk_parse fxA fxB fuel g nt w = Ok r /\ wf_tree g r /\ lbl r = nt /\ is_openT r = false
+             /\ yield r = w /\ L g nt w)
+  \/ (mk_parse fxA fxB fuel g nt w = Raise SyntaxErr /\ ~ L g nt w).
+Proof. exact mk_parse_total. Qed.
+Print Assumptions C20_mk_parse_total.
+
+Theorem C20_mk_parse_ok_iff : forall g fxA fxB fuel nt,
+  canonical_form g = true -> NoDup (map fst g) -> occurs_rhs g START = false ->
+  defined g nt = true -> nt <> START ->
+  acyclicb (cgram (mk_grammar g nt) START) = true ->
+  forall w, fuel_bound (cgram (mk_grammar g nt) START) (length w) <= fuel ->
+  ((exists r, mk_parse fxA fxB fuel g nt w = Ok r) <-> L g nt w).
+Proof. exact mk_parse_ok_iff. Qed.
+Print Assumptions C20_mk_parse_ok_iff.
+
+(* ---- "a replacement exists iff the cropped / padded / converted string is in L g nt": FULL ---- *)
+Theorem C20_crop_assign_iff : forall g fxA fxB fuel,
+  canonical_form g = true -> NoDup (map fst g) -> occurs_rhs g START = false ->
+  forall fx t wt n,
+  is_openT t = false -> defined g (lbl t) = true -> lbl t <> START ->
+  acyclicb (cgram (mk_grammar g (lbl t)) START) = true ->
+  is_openT wt = false -> numeral 10 (yield wt) n -> N.to_nat n < length (yield t) ->
+  fuel_bound (cgram (mk_grammar g (lbl t)) START) (N.to_nat n) <= fuel ->
+  ((exists r, sem_eval_earley fxA fxB fuel g fx (CCrop (TTree t) (WTree wt)) = Ok (SAssign 0 r))
+   <-> L g (lbl t) (firstn (N.to_nat n) (yield t))).
+Proof. exact crop_assign_iff. Qed.
+Print Assumptions C20_crop_assign_iff.
+
+Theorem C20_just_assign_iff : forall g fxA fxB fuel,
+  canonical_form g = true -> NoDup (map fst g) -> occurs_rhs g START = false ->
+  forall fx lj cr t w z fill c,
+  is_openT t = false -> defined g (lbl t) = true -> lbl t <> START ->
+  acyclicb (cgram (mk_grammar g (lbl t)) START) = true ->
+  width_denotes w z -> fill_of fill (yield t) = Ok [c] ->
+  Z.of_nat (length (yield t)) <> z -> (cr = true \/ (Z.of_nat (length (yield t)) < z)%Z) ->
+  fuel_bound (cgram (mk_grammar g (lbl t)) START) (length (just_output lj cr c z (yield t))) <= fuel ->
+  ((exists r, sem_eval_earley fxA fxB fuel g fx (CJust lj cr (TTree t) w fill) = Ok (SAssign 0 r))
+   <-> L g (lbl t) (just_output lj cr c z (yield t))).
+Proof. exact just_assign_iff. Qed.
+Print Assumptions C20_just_assign_iff.
+
+(* octal variants (the octal argument a proper octal numeral: not K_nonoctal) *)
+Theorem C20_octal_to_decimal_assign_iff : forall g fxA fxB fuel,
+  canonical_form g = true -> NoDup (map fst g) -> occurs_rhs g START = false ->
+  forall fx os ds o n,
+  is_openT o = false -> defined g ds = true -> ds <> START ->
+  acyclicb (cgram (mk_grammar g ds) START) = true -> numeral 8 (yield o) n ->
+  fuel_bound (cgram (mk_grammar g ds) START) (length (dec_of_N n)) <= fuel ->
+  ((exists r, sem_eval_earley fxA fxB fuel g fx (COctal os ds (TTree o) TVar) = Ok (SAssign 1 r))
+   <-> L g ds (dec_of_N n)).
+Proof. exact octal_to_decimal_assign_iff. Qed.
+Print Assumptions C20_octal_to_decimal_assign_iff.
+
+Theorem C20_decimal_to_octal_assign_iff : forall g fxA fxB fuel,
+  canonical_form g = true -> NoDup (map fst g) -> occurs_rhs g START = false ->
+  forall fx os ds d n,
+  is_openT d = false -> defined g os = true -> os <> START ->
+  acyclicb (cgram (mk_grammar g os) START) = true -> numeral 10 (yield d) n ->
+  fuel_bound (cgram (mk_grammar g os) START) (length (oct_of_N n)) <= fuel ->
+  ((exists r, sem_eval_earley fxA fxB fuel g fx (COctal os ds TVar (TTree d)) = Ok (SAssign 0 r))
+   <-> L g os (oct_of_N n)).
+Proof. exact decimal_to_octal_assign_iff. Qed.
+Print Assumptions C20_decimal_to_octal_assign_iff.
+
+(* every outcome of crop on closed arguments; the out-of-fuel line of C20_crop_earley_outcomes is gone *)
+Theorem C20_crop_earley_total : forall g fxA fxB fuel,
+  canonical_form g = true -> NoDup (map fst g) -> occurs_rhs g START = false ->
+  forall fx t wt n,
+  is_openT t = false -> defined g (lbl t) = true -> lbl t <> START ->
+  acyclicb (cgram (mk_grammar g (lbl t)) START) = true ->
+  is_openT wt = false -> numeral 10 (yield wt) n ->
+  fuel_bound (cgram (mk_grammar g (lbl t)) START) (N.to_nat n) <= fuel ->
+  let s := firstn (N.to_nat n) (yield t) in
+  let out := sem_eval_earley fxA fxB fuel g fx (CCrop (TTree t) (WTree wt)) in
+  (length (yield t) <= N.to_nat n /\ out = Ok (SBool true))
+  \/ (N.to_nat n < length (yield t) /\
+      ((exists r, out = Ok (SAssign 0 r) /\ wf_tree g r /\ lbl r = lbl t /\ is_openT r = false /\ yield r = s /\ L g (lbl t) s)
+       \/ (out = Raise SyntaxErr /\ ~ L g (lbl t) s))).
+Proof. exact crop_earley_total. Qed.
+Print Assumptions C20_crop_earley_total.
+
+(* ---- the boolean guards evaluated by harness/c20.py (Logic/SemPredsGuard.v) ----
+   grammar_guard g = canonical_form g && unique keys && "<start>" on no right-hand side;
+   request_guard fuel g fx c = the call makes a parser request (nt, s) with nt <> "<start>" defined,
+   acyclicb (cgram (mk_grammar g nt) START) and fuel_bound .. |s| <= fuel. *)
+Theorem C20_grammar_guard_spec : forall g, grammar_guard g = true ->
+  canonical_form g = true /\ NoDup (map fst g) /\ occurs_rhs g START = false.
+Proof. exact grammar_guard_spec. Qed.
+Print Assumptions C20_grammar_guard_spec.
+
+Theorem C20_parse_guard_spec : forall fuel g nt n, parse_guard fuel g nt n = true ->
+  nt <> START /\ defined g nt = true /\ acyclicb (cgram (mk_grammar g nt) START) = true
+  /\ fuel_bound (cgram (mk_grammar g nt) START) n <= fuel.
+Proof. exact parse_guard_spec. Qed.
+Print Assumptions C20_parse_guard_spec.
+
+Theorem C20_request_guard_total : forall g fxA fxB fuel fx c,
+  grammar_guard g = true -> request_guard fuel g fx c = true ->
+  exists k nt s, pre_eval fx c = Ok (PParse k nt s) /\
+    ((exists r, sem_eval_earley fxA fxB fuel g fx c = Ok (SAssign k r) /\ wf_tree g r /\ lbl r = nt
+                /\ is_openT r = false /\ yield r = s /\ L g nt s)
+     \/ (sem_eval_earley fxA fxB fuel g fx c = Raise SyntaxErr /\ ~ L g nt s)).
+Proof. exact request_guard_total. Qed.
+Print Assumptions C20_request_guard_total.
+
+(* the table form the harness evaluates (guard_table computed once per grammar, per-case lookup)
+   implies request_guard, hence C20_request_guard_total applies to every case counted "inside_guard" *)
+Theorem C20_request_guard_tab_sound : forall fuel g nmax fx c,
+  request_guard_tab (guard_table fuel g nmax) nmax fx c = true -> request_guard fuel g fx c = true.
+Proof. exact request_guard_tab_sound. Qed.
+Print Assumptions C20_request_guard_tab_sound.
+
+(* non-vacuity of the new hypotheses (same example grammar as above); a <start>-rooted argument
+   makes a request but lies outside the guard *)
+Example C20_acyclic_hypotheses_satisfiable :
+  grammar_guard ex_gs = true /\
+  acyclicb (cgram (mk_grammar ex_gs (lbl ex_o17)) START) = true /\
+  parse_guard 200 ex_gs (lbl ex_o17) 3 = true /\
+  request_guard 200 ex_gs false (CCrop (TTree ex_o17) (WTree ex_w1)) = true /\
+  request_guard 200 ex_gs false (CJust true false (TTree ex_o17) (WInt 3) (Some [97%N])) = true /\
+  request_guard 200 ex_gs false (CCrop (TTree ex_s17) (WTree ex_w1)) = false /\
+  is_request false (CCrop (TTree ex_s17) (WTree ex_w1)) = true.
+Proof. exact ex_acyclic_hyps. Qed.
+Print Assumptions C20_acyclic_hypotheses_satisfiable.
+
+(* the guard cannot be dropped FOR THE MODEL: <start> ::= <a>; <a> ::= <a> | "1" satisfies every other
+   hypothesis, "1" is a member, and the model (which enumerates the whole, here infinite, forest)
+   answers out-of-fuel.  Python's EarleyParser enumerates lazily; this is a limit of the model, not a
+   defect of the code (C10_parse_complete_unguarded_refuted). *)
+Example C20_acyclic_guard_needed :
+  grammar_guard ex_gcyc = true /\
+  acyclicb (cgram (mk_grammar ex_gcyc [60; 97; 62]%N) START) = false /\
+  fuel_bound (cgram (mk_grammar ex_gcyc [60; 97; 62]%N) START) 1 <= 60 /\
+  mk_parse false false 60 ex_gcyc [60; 97; 62]%N [49]%N = Raise OutOfFuel.
+Proof. exact ex_cyclic_outoffuel. Qed.
+Print Assumptions C20_acyclic_guard_needed.
